@@ -102,6 +102,19 @@ def minmax_provenance(ctx, crate, clause_outer, clause_inner):
     ctx.report(clause_outer, MINMAX + ":outer-argument-clamped-at-pi", clamped,
                "the argument of the outer threshold is min(radius + distance, PI)" if clamped else
                "the outer threshold is to_squared_half_segment(radius + distance) without a clamp at PI: for radius in (PI - distance, PI) it decreases with the radius (sin^2(x/2) is not monotone past PI) and cells inside the cone are dropped", at=b.span, kind="N")
+    # the outer threshold saturates at f(pi) = 1: what is compared with it must not exceed 1 either, or a
+    # cell at the antipode of the cone centre (true value 1, rounded sum 1.0000000000000002) is dropped
+    # with its whole sub-tree although r + d >= pi says everything is inside
+    shs_fn = find(crate, "squared_half_segment")
+    if shs_fn and crate.body(shs_fn) is not None:
+        es = Engine(crate); rs = es.run(shs_fn)
+        rv = rs.ret if rs.returns else None
+        one = C('f64', 0x3FF0000000000000)
+        capped = rv is not None and rv[0] == 'call' and rv[1].endswith("::min") and one in rv[2]
+        ctx.report(clause_outer, shs_fn + ":bounded-by-1", capped,
+                   "squared_half_segment = min(sin^2(dlat/2) + cos cos sin^2(dlon/2), 1): never above the saturated outer threshold" if capped else
+                   "squared_half_segment returns %s: for nearly antipodal points the rounded sum can be 1.0000000000000002 > to_squared_half_segment(pi) = 1, the saturated outer threshold" % (show(rv)[:100] if rv else None),
+                   at=crate.body(shs_fn).span, kind="N")
     alts = e.phi_ops.get(mn, {mn})
     from rules.common import cval as _cv
     consts = [o for o in alts if o[0] == 'c']
